@@ -20,7 +20,7 @@ import argparse  # noqa: E402
 
 PROPERTY = "C16"
 CASE = {}
-KERNELS = ["gunicorn.app.base:Application.load_config", "gunicorn.app.base:Application.load_config_from_module_name_or_filename",
+KERNELS = ["gunicorn.config:Config.get_cmd_args_from_env", "gunicorn.app.base:Application.load_config", "gunicorn.app.base:Application.load_config_from_module_name_or_filename",
            "gunicorn.app.base:Application.load_config_from_file", "gunicorn.config:Config.set", "gunicorn.config:Setting.set",
            "gunicorn.config:Setting.add_option", "gunicorn.config:validate_pos_int", "gunicorn.config:validate_bool",
            "gunicorn.config:validate_string", "gunicorn.config:validate_list_string"]
@@ -69,7 +69,10 @@ def run_merge(name, cli, env, filev, fw, file_loc="cli"):
     """-> effective value of setting `name`, or "error" """
     cli_ns = ns(**{name: cli, "config": "x.py" if file_loc == "cli" else None})
     env_ns = ns(**{name: env, "config": "y.py" if file_loc == "env" else None})
-    app = App(cli_ns, env_ns, {} if filev is ABSENT else {name: filev, "not_a_setting": 1},
+    # a config file is a Python module: it may define other names - unknown ones and ones that only differ from a setting
+    # by case are not settings and must not touch anything
+    junk = {"not_a_setting": 1, "TIMEOUT": 5, "Threads": 7, "KEEPALIVE": 99}
+    app = App(cli_ns, env_ns, dict(junk) if filev is ABSENT else dict(junk, **{name: filev}),
               {} if fw is ABSENT else {name: fw})
     saved = (Config.parser, Config.get_cmd_args_from_env, B.get_default_config_file, B.sys)
     B.sys = _QUIET_SYS
@@ -255,6 +258,25 @@ def merge_twin(cli: Optional[int], env: Optional[int], filev: Optional[int], fw:
     return not (None not in (cli, env, filev, fw) and len({cli, env, filev, fw}) == 4 and got == cli)
 
 
+ENVS = [("--workers 3", ["--workers", "3"]), ('--name "my app"', ["--name", "my app"]), ("--statsd-prefix ''", ["--statsd-prefix", ""]),
+        ("--name my\\ app -w 2", ["--name", "my app", "-w", "2"]), ("", []), ("  --reload  ", ["--reload"]),
+        ("--bind=unix:/tmp/a\\ b.sock", ["--bind=unix:/tmp/a b.sock"])]
+
+
+def env_split(i: int) -> bool:
+    """
+    pre: 0 <= i < len(ENVS)
+    post: __return__
+    """
+    # GUNICORN_CMD_ARGS is read like a shell command line (quotes group, backslash escapes), so that the value a setting gets
+    # from this source is the one that was written there
+    text, want = ENVS[pick(i, 0, len(ENVS) - 1)]
+    with _untraced():
+        cfg = Config()
+    cfg.env_orig = {"GUNICORN_CMD_ARGS": text}
+    return cfg.get_cmd_args_from_env() == want
+
+
 # ---- 2. per-setting CLI table --------------------------------------------------------------------------------------------
 CLI_SETTINGS = [s for s in KNOWN_SETTINGS if s.cli]
 
@@ -298,5 +320,6 @@ OBLIGATIONS = [
     Ob("C16.merge_str", "merge_str", cases={"quick": [{"n": 1}], "thorough": [{"n": 2}]}, timeout={"quick": 900, "thorough": 2400},
        bound="proc_name: each of 4 sources absent or an arbitrary string of <=1 (thorough 2) characters"),
     Ob("C16.merge_list", "merge_list", timeout=900, bound="bind: CLI/env lists from 4 shapes, file/framework from 5 shapes (str, list, empty, padded)"),
+    Ob("C16.env_split", "env_split", timeout=300, bound="7 GUNICORN_CMD_ARGS strings with quotes, empty strings, backslash escapes, padding"),
     Ob("C16.cli_table", "cli_row", timeout=900, bound="every setting of KNOWN_SETTINGS that has a command-line option (one row each)"),
 ]
